@@ -41,7 +41,7 @@ public:
 private:
     bool _is_prime(uint32_t n) const noexcept {
         for (auto d : _primes) {
-            if (d * d > n) {
+            if (uint64_t(d) * d > n) {
                 break;
             }
             if (n % d == 0) {
@@ -95,7 +95,7 @@ bool isprime(uint32_t n) noexcept {
 
     PrimesGenerator gen;
     auto d = gen.current();
-    while (d * d <= n) {
+    while (uint64_t(d) * d <= n) {
         if (n % d == 0) {
             return false;
         }
@@ -113,7 +113,7 @@ arr_int factor(uint32_t n) {
     std::vector<int> res;
     PrimesGenerator gen;
     uint32_t d = gen.current();
-    while (d * d <= n) {
+    while (uint64_t(d) * d <= n) {
         while (n % d == 0) {
             n /= d;
             res.push_back(d);
